@@ -52,30 +52,29 @@ def eval_dyad_amend(a, b, backend):
         raise RuntimeError(f"a must be list or str: {a}")
     if len(b) <= 1:
         return a
+    v = b[0]
     if isinstance(a, str):
-        r = backend.str_to_chr_arr(a)
-        q = backend.str_to_chr_arr(b[0])
+        q = str(v)
+        r = a
         for i in b[1:]:
-            try:
-                r[i:i+len(q)] = q
-            except ValueError:
-                r = r.astype(object)
-                if i > len(r):
-                    RangeError(i)
-                elif i == len(r):
-                    r = numpy.append(r, b[0])
-                else:
-                    r[i] = b[0]
-        return "".join(["".join(x) for x in r])
+            i = int(i)
+            if i < 0:
+                i += len(r)
+            if i < 0 or i > len(r):
+                raise RangeError(i)
+            # the substring starting at i is replaced; past (#a)-#b1 the string grows
+            r = r[:i] + q + r[i+len(q):]
+        return r
     r = np_backend.array(a) # clone
-    if is_list(b[0]): # TOOD: use bknp.put if we can
-        r = r.tolist()
-        for i in b[1:]:
-            r[i] = b[0]
-        r = backend.kg_asarray(r)
-    else:
-        numpy.put(r, numpy.asarray(b[1:],dtype=int), b[0])
-    return r
+    kind = getattr(r.dtype, 'kind', None)
+    if getattr(r, 'ndim', 0) == 1 and not is_list(v) and (kind == 'O' or (kind == 'f' and backend.is_number(v)) or (kind in 'iu' and backend.is_integer(v))):
+        numpy.put(r, numpy.asarray(b[1:],dtype=int), v)
+        return r
+    # positions name members of "a" (the rows of a matrix), and the value may be of another kind than the members
+    r = [x for x in r]
+    for i in b[1:]:
+        r[int(i)] = v
+    return backend.kg_asarray(r)
 
 
 def _e_dyad_amend_in_depth(p, q, v):
